@@ -4,7 +4,7 @@
    The wrapped methods themselves, np.mean over several points, np.maximum and the Gaussian / edge
    extrapolation are arguments of the models (C06-C09 / library). *)
 From Coq Require Import ZArith List Bool Lia String QArith PrimFloat.
-From PB Require Import lib.PySlice lib.Arr lib.Loop lib.LoopProofs C17.Model C17.Float C17.Proofs C17.Custom C17.Grow C17.Smooth.
+From PB Require Import lib.PySlice lib.Arr lib.Loop lib.LoopProofs C17.Model C17.Float C17.Proofs C17.Custom C17.Grow C17.Smooth C17.Guard.
 Import ListNotations.
 Open Scope Z_scope.
 
@@ -366,4 +366,58 @@ Example C17_collab_name_case_nonvacuous :
   lower "asPLS" = "aspls"%string /\ lower "PSPLINE_BRPLS" = "pspline_brpls"%string /\ lower "fabc" = "fabc"%string /\
   collab_param_keys_named "ASPLS" = ["average_weights"; "method_params"; "average_alpha"]%string /\
   dget "alpha" (collab_step2 true (lower "PSpline_AsPLS") [("alpha", VUser 0)]%string) = Some VAvgA.
+Proof. vm_compute. repeat split. Qed.
+
+(* ---------------------------------------------------------------- the counts under the fraction guard *)
+(* adaptive_minmax rejects fractions outside [0, 1] (ValueError); for the accepted ones the count
+   ceil(N * f) lies in [0, N], is 0 for f = 0, N for f = 1 and at least 1 for f > 0 on a non-empty
+   axis (exact arithmetic; the binary64 product is compared with the implementation on every run) *)
+Theorem C17_minmax_count_bounds : forall (n : Z) (f : Q), 0 <= n -> (0 <= f)%Q -> (f <= 1)%Q ->
+  0 <= edge_count Num_Q n f <= n /\
+  ((f == 0)%Q -> edge_count Num_Q n f = 0) /\ ((f == 1)%Q -> edge_count Num_Q n f = n) /\
+  (1 <= n -> (0 < f)%Q -> 1 <= edge_count Num_Q n f).
+Proof.
+  intros n f Hn H0 H1. split; [apply edge_count_bounds; assumption|].
+  split; [apply edge_count_zero|]. split; [apply edge_count_one|apply edge_count_pos].
+Qed.
+Print Assumptions C17_minmax_count_bounds.
+
+(* C17_minmax_edges with the counts computed from the guarded fractions: the hypotheses on the counts
+   (`0 <= cl`, `0 <= cr <= n`) are discharged by the guard, only the fractions' range is assumed *)
+Theorem C17_minmax_edges_guarded : forall (A : Type) (n : Z) (f0 f1 : Q) (wl wr : A) (w : Z -> A) (p q : Z -> Z),
+  0 <= n -> (0 <= f0 <= 1)%Q -> (0 <= f1 <= 1)%Q ->
+  (forall j, 0 <= j < n -> 0 <= q j < n /\ p (q j) = j) ->
+  forall j, 0 <= j < n ->
+  let cl := edge_count Num_Q n f0 in let cr := edge_count Num_Q n f1 in
+  fst (minmax_weights n (Some (p, q)) cl cr wl wr w) j = w j /\
+  snd (minmax_weights n (Some (p, q)) cl cr wl wr w) j =
+    if n - cr <=? q j then wr else if q j <? cl then wl else w j.
+Proof. intros A. exact minmax_edges_guarded. Qed.
+Print Assumptions C17_minmax_edges_guarded.
+
+Theorem C17_minmax_edges_sorted_guarded : forall (A : Type) (n : Z) (f0 f1 : Q) (wl wr : A) (w : Z -> A),
+  0 <= n -> (0 <= f0 <= 1)%Q -> (0 <= f1 <= 1)%Q ->
+  forall j, 0 <= j < n ->
+  let cl := edge_count Num_Q n f0 in let cr := edge_count Num_Q n f1 in
+  fst (minmax_weights n None cl cr wl wr w) j = w j /\
+  snd (minmax_weights n None cl cr wl wr w) j = if n - cr <=? j then wr else if j <? cl then wl else w j.
+Proof. intros A. exact minmax_edges_sorted_guarded. Qed.
+Print Assumptions C17_minmax_edges_sorted_guarded.
+
+Theorem C17_minmax2d_edges_guarded : forall (A : Type) (m n : Z) (f0 f1 f2 f3 : Q) (w0 w1 w2 w3 : A)
+    (ox oz : option ((Z -> Z) * (Z -> Z))) (w : Z -> Z -> A) (i j : Z),
+  0 <= m -> 0 <= n -> (0 <= f0 <= 1)%Q -> (0 <= f1 <= 1)%Q -> (0 <= f2 <= 1)%Q -> (0 <= f3 <= 1)%Q ->
+  inv_ok m ox -> inv_ok n oz -> 0 <= i < m -> 0 <= j < n ->
+  let c0 := edge_count Num_Q m f0 in let c1 := edge_count Num_Q m f1 in
+  let c2 := edge_count Num_Q n f2 in let c3 := edge_count Num_Q n f3 in
+  fst (minmax2d_weights m n ox oz c0 c1 c2 c3 w0 w1 w2 w3 w) i j = w i j /\
+  snd (minmax2d_weights m n ox oz c0 c1 c2 c3 w0 w1 w2 w3 w) i j =
+    let r := perm_of ox true i in let c := perm_of oz true j in
+    if n - c3 <=? c then w3 else if m - c1 <=? r then w1 else if c <? c2 then w2 else if r <? c0 then w0 else w i j.
+Proof. intros A. exact minmax2d_edges_guarded. Qed.
+Print Assumptions C17_minmax2d_edges_guarded.
+
+Example C17_minmax_guard_nonvacuous :
+  edge_count Num_Q 57 (1 # 100)%Q = 1 /\ edge_count Num_Q 57 (1 # 3)%Q = 19 /\ edge_count Num_Q 57 (7 # 20)%Q = 20 /\
+  edge_count Num_Q 10 0%Q = 0 /\ edge_count Num_Q 10 1%Q = 10.
 Proof. vm_compute. repeat split. Qed.
